@@ -6,7 +6,8 @@ proofs : lean/PyAbel/Props/C19.lean (exact polar round trip with arctan2 = arg; 
 K      : cart2polar / polar2cart / index_coords / the four radial_intensity kinds (with a stubbed polar image) / toPES
          vs the Lean model
 S      : the clauses of the property on random coordinates, images, grids; isotropic profiles and conservation to
-         quadrature accuracy; circularize with constant corrections and on circular images
+         quadrature accuracy; circularize with constant corrections and on circular images; integer / float32 / boolean images =
+         their float64 copies through every polar tool
 """
 import json
 
